@@ -12,3 +12,6 @@ import SpoxModel.Props.C15
 #print axioms C15.no_bad_value_counterexample
 #print axioms C15.off_is_transparent_counterexample
 #print axioms C15.tensor_value_never_object
+#print axioms C15.adapt_initializers_nil
+#print axioms C15.adapter_value_blind
+#print axioms C15.generated_value_readers_modelled
